@@ -105,6 +105,11 @@ func (server *SugarDB) Flush(database int) {
 		return
 	}
 
+	// A database that was never written to has no store and no caches yet: nothing to flush.
+	if server.store[database] == nil {
+		return
+	}
+
 	// Clear db store.
 	clear(server.store[database])
 	// Clear db volatile key tracker.
